@@ -7,53 +7,53 @@ open ImathVerif
 
 /-- extracted from the C++ template at T = Sym; 1 path(s) -/
 def Sphere3.circumscribe {α : Type} [Add α] [Sub α] [Mul α] [Div α] [Neg α] [LT α] [LE α] [DecidableLT α] [DecidableLE α] [DecidableEq α] [OfNat α 0] [OfNat α 1] [OfNat α 2] (tmin : α) (tmax : α) (sqrt : α → α) (b : Box3 α) : (Sphere3 α) :=
-  let t937 := (((1 : α) / (2 : α)) * (b.min.z + b.max.z))
-  let t938 := (((1 : α) / (2 : α)) * (b.min.y + b.max.y))
-  let t939 := (((1 : α) / (2 : α)) * (b.min.x + b.max.x))
-  ⟨⟨t939, t938, t937⟩, (V3.length tmin tmax sqrt ⟨(b.max.x - t939), (b.max.y - t938), (b.max.z - t937)⟩)⟩
+  let t939 := (((1 : α) / (2 : α)) * (b.min.z + b.max.z))
+  let t940 := (((1 : α) / (2 : α)) * (b.min.y + b.max.y))
+  let t941 := (((1 : α) / (2 : α)) * (b.min.x + b.max.x))
+  ⟨⟨t941, t940, t939⟩, (V3.length tmin tmax sqrt ⟨(b.max.x - t941), (b.max.y - t940), (b.max.z - t939)⟩)⟩
 
 /-- extracted from the C++ template at T = Sym; 4 path(s) -/
 def Sphere3.intersectT {α : Type} [Add α] [Sub α] [Mul α] [Div α] [Neg α] [LT α] [DecidableLT α] [OfNat α 0] [OfNat α 1] [OfNat α 2] [OfNat α 4] (sqrt : α → α) (s : Sphere3 α) (l : Line3 α) : (Bool × α) :=
-  let t948 := (l.pos.z - s.center.z)
-  let t949 := (l.pos.y - s.center.y)
-  let t950 := (l.pos.x - s.center.x)
-  let t956 := ((2 : α) * (((l.dir.x * t950) + (l.dir.y * t949)) + (l.dir.z * t948)))
-  let t967 := ((t956 * t956) - ((4 : α) * ((((t950 * t950) + (t949 * t949)) + (t948 * t948)) - (s.radius * s.radius))))
-  let t968 := (sqrt t967)
-  let t969 := (-t956)
-  let t971 := ((t969 - t968) * ((1 : α) / (2 : α)))
-  let t973 := ((t969 + t968) * ((1 : α) / (2 : α)))
-  if t967 < (0 : α) then
+  let t950 := (l.pos.z - s.center.z)
+  let t951 := (l.pos.y - s.center.y)
+  let t952 := (l.pos.x - s.center.x)
+  let t958 := ((2 : α) * (((l.dir.x * t952) + (l.dir.y * t951)) + (l.dir.z * t950)))
+  let t969 := ((t958 * t958) - ((4 : α) * ((((t952 * t952) + (t951 * t951)) + (t950 * t950)) - (s.radius * s.radius))))
+  let t970 := (sqrt t969)
+  let t971 := (-t958)
+  let t973 := ((t971 - t970) * ((1 : α) / (2 : α)))
+  let t975 := ((t971 + t970) * ((1 : α) / (2 : α)))
+  if t969 < (0 : α) then
     (false, (0 : α))
   else
-    if t971 < (0 : α) then
-      if t973 < (0 : α) then
-        (false, t973)
+    if t973 < (0 : α) then
+      if t975 < (0 : α) then
+        (false, t975)
       else
-        (true, t973)
+        (true, t975)
     else
-      (true, t971)
+      (true, t973)
 
 /-- extracted from the C++ template at T = Sym; 4 path(s) -/
 def Sphere3.intersect {α : Type} [Add α] [Sub α] [Mul α] [Div α] [Neg α] [LT α] [DecidableLT α] [OfNat α 0] [OfNat α 1] [OfNat α 2] [OfNat α 4] (sqrt : α → α) (s : Sphere3 α) (l : Line3 α) : (Bool × (V3 α)) :=
-  let t948 := (l.pos.z - s.center.z)
-  let t949 := (l.pos.y - s.center.y)
-  let t950 := (l.pos.x - s.center.x)
-  let t956 := ((2 : α) * (((l.dir.x * t950) + (l.dir.y * t949)) + (l.dir.z * t948)))
-  let t967 := ((t956 * t956) - ((4 : α) * ((((t950 * t950) + (t949 * t949)) + (t948 * t948)) - (s.radius * s.radius))))
-  let t968 := (sqrt t967)
-  let t969 := (-t956)
-  let t971 := ((t969 - t968) * ((1 : α) / (2 : α)))
-  let t973 := ((t969 + t968) * ((1 : α) / (2 : α)))
-  if t967 < (0 : α) then
+  let t950 := (l.pos.z - s.center.z)
+  let t951 := (l.pos.y - s.center.y)
+  let t952 := (l.pos.x - s.center.x)
+  let t958 := ((2 : α) * (((l.dir.x * t952) + (l.dir.y * t951)) + (l.dir.z * t950)))
+  let t969 := ((t958 * t958) - ((4 : α) * ((((t952 * t952) + (t951 * t951)) + (t950 * t950)) - (s.radius * s.radius))))
+  let t970 := (sqrt t969)
+  let t971 := (-t958)
+  let t973 := ((t971 - t970) * ((1 : α) / (2 : α)))
+  let t975 := ((t971 + t970) * ((1 : α) / (2 : α)))
+  if t969 < (0 : α) then
     (false, ⟨(0 : α), (0 : α), (0 : α)⟩)
   else
-    if t971 < (0 : α) then
-      if t973 < (0 : α) then
+    if t973 < (0 : α) then
+      if t975 < (0 : α) then
         (false, ⟨(0 : α), (0 : α), (0 : α)⟩)
       else
-        (true, ⟨(l.pos.x + (l.dir.x * t973)), (l.pos.y + (l.dir.y * t973)), (l.pos.z + (l.dir.z * t973))⟩)
+        (true, ⟨(l.pos.x + (l.dir.x * t975)), (l.pos.y + (l.dir.y * t975)), (l.pos.z + (l.dir.z * t975))⟩)
     else
-      (true, ⟨(l.pos.x + (l.dir.x * t971)), (l.pos.y + (l.dir.y * t971)), (l.pos.z + (l.dir.z * t971))⟩)
+      (true, ⟨(l.pos.x + (l.dir.x * t973)), (l.pos.y + (l.dir.y * t973)), (l.pos.z + (l.dir.z * t973))⟩)
 
 end ImathVerif.Gen
